@@ -61,8 +61,9 @@ Definition v_from_bytes (n cols size w len : Z) : option vhdr :=
   if len =? bytes_of n cols size w then Some (mkV n cols size size len w) else None.
 (* from_data: no validation at all *)
 Definition v_from_data (len n cols size w : Z) : vhdr := mkV n cols size size len w.
-(* VecZnx / ScalarZnx::from_data after repair 2067fe8: assert!(n*cols*size*8 <= data.len()) with checked products;
-   the other layouts (VecZnxBig, VecZnxDft, SvpPPol, MatZnx, VmpPMat, CnvPVec) still use the unchecked form above *)
+(* from_data after repairs 2067fe8 (VecZnx, ScalarZnx) and 122d562 (VecZnxBig, VecZnxDft, SvpPPol, MatZnx, VmpPMat,
+   CnvPVecL/R): assert!(n*polys*size_of::<Scalar>() <= data.len()) with checked products (and alignment).
+   The unchecked form above remains reachable only through the public fields (struct literal). *)
 Definition v_from_data_checked (len n cols size w : Z) : option vhdr :=
   if (n * cols * size * w <? U64) && (n * cols * size * w <=? len) then Some (mkV n cols size size len w) else None.
 (* set_size: assert!(size <= self.max_size) *)
